@@ -25,6 +25,8 @@ def gen_null_xact(rng):
     """one elided posting at a random position among 1-6 others over 1-4 commodities"""
     if rng.random() < 0.06:
         return X.gen_plain(rng, elide=True)
+    if rng.random() < 0.06:
+        return X.gen_virtual_lot(rng, elide=True)
     nother = rng.randrange(1, 7)
     syms = rng.sample(list(X.COMMS), rng.choice([1, 1, 2, 2, 3, 4]))
     posts = []
